@@ -857,6 +857,29 @@ func racDeclaredSizesEnforced() bool {
 				}
 			}
 		}
+		// a declaration is enforced whatever precedes the item: undeclared ASCII variables, other messages, errors elsewhere
+		for _, c := range []struct {
+			text string
+			ok   bool
+		}{
+			{"S1F1 H->E m\n<L <A name> <B[2] 1>>\n.", false},
+			{"S1F1 H->E m\n<L <A name> <B[2] 1 2>>\n.", true},
+			{"S1F1 H->E m\n<L[3] <A name>>\n.", false},
+			{"S1F1 H->E m\n<L[1] <A name>>\n.", true},
+			{"S1F1 H->E m\n<A name>\n.\nS1F3 H->E n\n<B[3] 1>\n.", false},
+			{"S1F1 H->E m\n<A[2] name>\n.\nS1F3 H->E n\n<U1[1] 1>\n.", true},
+			{"S1F1 H->E m\n<L <A[1..2] s1> <A s2> <I2[2..3] 1>>\n.", false},
+			{"S1F1 H->E m\n<L <L[1] <U1 1>> <L[2] <U1 1>>>\n.", false},
+			{"S1F1 H->E m\n<L <L[1] <U1 1>> <L[2] <U1 1> <U1 x>>>\n.", true},
+		} {
+			r := racParse(c.text)
+			n++
+			if (len(r.errs) == 0) != c.ok {
+				racSizesOK = false
+				fmt.Printf("GOVC-NOTE racDeclaredSizesEnforced: %q: errors %v, expected accepted=%v\n", c.text, r.errs, c.ok)
+				return
+			}
+		}
 		fmt.Println("GOVC-COUNT racDeclaredSizesEnforced texts parsed:", n)
 	})
 	return racSizesOK
